@@ -249,6 +249,25 @@ fn rescue_sponges_bounded() {
             if got != s[4..8].to_vec() {
                 fail(format!("RpJive64_256::hash_elements({vals:?}) == {got:?} instead of {:?}", &s[4..8]));
             }
+            // the same residues typed as quadratic / cubic extension elements hash like their coordinates (all three hashers)
+            if len % 2 == 0 {
+                let quad: Vec<math::fields::QuadExtension<BaseElement>> = elements.chunks(2).map(|c| math::fields::QuadExtension::new(c[0], c[1])).collect();
+                if Rp64_256::hash_elements(&quad) != Rp64_256::hash_elements(&elements) {
+                    fail(format!("Rp64_256::hash_elements of {} quadratic elements differs from hashing their {len} coordinates {vals:?}", len / 2));
+                }
+                if RpJive64_256::hash_elements(&quad) != RpJive64_256::hash_elements(&elements) {
+                    fail(format!("RpJive64_256::hash_elements of {} quadratic elements differs from hashing their {len} coordinates {vals:?}", len / 2));
+                }
+            }
+            if len % 3 == 0 {
+                let cube: Vec<math::fields::CubeExtension<BaseElement>> = elements.chunks(3).map(|c| math::fields::CubeExtension::new(c[0], c[1], c[2])).collect();
+                if Rp64_256::hash_elements(&cube) != Rp64_256::hash_elements(&elements) {
+                    fail(format!("Rp64_256::hash_elements of {} cubic elements differs from hashing their {len} coordinates {vals:?}", len / 3));
+                }
+                if RpJive64_256::hash_elements(&cube) != RpJive64_256::hash_elements(&elements) {
+                    fail(format!("RpJive64_256::hash_elements of {} cubic elements differs from hashing their {len} coordinates {vals:?}", len / 3));
+                }
+            }
         }
     }
     println!("NB-RESULT name=rescue_sponges_bounded cases={cases}");
